@@ -238,6 +238,93 @@ def deitems(fn):
     return fn
 
 
+def inline_single_return_calls(fn, model=None, cls=None):
+    """calls of a helper whose body is a single `return <expr>` - a function nested in fn, or (with model / cls) a method
+    reached as self.m(..) / Cls.m(..) - are replaced by that expression with the arguments substituted (on a cloned tree)"""
+    nested = {x.name: x for x in ast.walk(fn) if isinstance(x, ast.FunctionDef) and x is not fn}
+
+    def body_expr(h):
+        body = [s for s in h.body if not (isinstance(s, ast.Expr) and isinstance(s.value, ast.Constant))]
+        if len(body) == 1 and isinstance(body[0], ast.Return) and body[0].value is not None:
+            return body[0].value
+        return None
+
+    class T(ast.NodeTransformer):
+        def visit_Call(self, n):
+            self.generic_visit(n)
+            h, skip = None, 0
+            if isinstance(n.func, ast.Name) and n.func.id in nested:
+                h = nested[n.func.id]
+            elif model is not None and cls and isinstance(n.func, ast.Attribute) and isinstance(n.func.value, ast.Name) and n.func.value.id in ("self", cls):
+                h = model.own_method(cls, n.func.attr)
+                if h is not None:
+                    static = any(isinstance(d, ast.Name) and d.id == "staticmethod" for d in h.decorator_list)
+                    skip = 0 if static else 1
+            if h is None or n.keywords:
+                return n
+            e = body_expr(h)
+            params = [a.arg for a in h.args.posonlyargs + h.args.args][skip:]
+            if e is None or len(params) != len(n.args) or any(isinstance(c, ast.Call) and isinstance(c.func, ast.Name) and c.func.id == h.name for c in ast.walk(e)):
+                return n
+            mp = dict(zip(params, n.args))
+
+            class S(ast.NodeTransformer):
+                def visit_Name(self, m):
+                    if isinstance(m.ctx, ast.Load) and m.id in mp:
+                        return ast.copy_location(clone_ast(mp[m.id]), m)
+                    return m
+            return ast.copy_location(S().visit(clone_ast(e)), n)
+    T().visit(fn)
+    ast.fix_missing_locations(fn)
+    return fn
+
+
+def inline_single_use_temps(fn, only_bool=False):
+    """t = <expr> ... <one later use of t in the same block>  ->  the use reads <expr> (in place, on a cloned function).
+    t must be bound once and read once; nothing the expression mentions may be re-bound between the two statements."""
+    binds, loads = {}, {}
+    for x in ast.walk(fn):
+        if isinstance(x, ast.Name):
+            d = binds if isinstance(x.ctx, (ast.Store, ast.Del)) else loads
+            d[x.id] = d.get(x.id, 0) + 1
+
+    def fix(stmts):
+        i = 0
+        while i < len(stmts):
+            s = stmts[i]
+            for fld in ("body", "orelse", "finalbody"):
+                blk = getattr(s, fld, None)
+                if isinstance(blk, list) and blk and isinstance(blk[0], ast.stmt):
+                    fix(blk)
+            if isinstance(s, ast.Assign) and len(s.targets) == 1 and isinstance(s.targets[0], ast.Name):
+                t = s.targets[0].id
+                if binds.get(t) == 1 and loads.get(t) == 1 and (not only_bool or isinstance(s.value, (ast.BoolOp, ast.Compare))):
+                    free = {y.id for y in ast.walk(s.value) if isinstance(y, ast.Name)}
+                    for j in range(i + 1, len(stmts)):
+                        u = stmts[j]
+                        own = [y for y in ast.walk(u.test if isinstance(u, (ast.If, ast.While)) else u) if isinstance(y, ast.Name) and y.id == t and isinstance(y.ctx, ast.Load)] \
+                            if not isinstance(u, (ast.For, ast.With, ast.Try, ast.FunctionDef)) else []
+                        if own:
+                            class S(ast.NodeTransformer):
+                                def visit_Name(self, m):
+                                    if m.id == t and isinstance(m.ctx, ast.Load):
+                                        return ast.copy_location(clone_ast(s.value), m)
+                                    return m
+                            if isinstance(u, (ast.If, ast.While)):
+                                u.test = S().visit(u.test)
+                            else:
+                                stmts[j] = S().visit(u)
+                            del stmts[i]
+                            i -= 1
+                            break
+                        if any(isinstance(y, ast.Name) and isinstance(y.ctx, ast.Store) and y.id in free for y in ast.walk(u)):
+                            break
+            i += 1
+    fix(fn.body)
+    ast.fix_missing_locations(fn)
+    return fn
+
+
 def decontinue(fn):
     """loop body `if C: continue` followed by the rest  ->  `if not C: rest`  (in place, on a cloned function)"""
     def fix(stmts, in_loop):
@@ -252,6 +339,11 @@ def decontinue(fn):
                     rest = fix(stmts[i + 1:], True)
                     neg = s.test.operand if isinstance(s.test, ast.UnaryOp) and isinstance(s.test.op, ast.Not) else ast.UnaryOp(op=ast.Not(), operand=s.test)
                     new = ast.copy_location(ast.If(test=neg, body=rest, orelse=[]), s)
+                    return stmts[:i] + [new]
+                if isinstance(s, ast.If) and len(s.body) > 1 and isinstance(s.body[-1], ast.Continue) and not s.orelse and i + 1 < len(stmts) \
+                        and not any(isinstance(x, (ast.Continue, ast.Break)) for y in s.body[:-1] for x in ast.walk(y)):
+                    rest = fix(stmts[i + 1:], True)
+                    new = ast.copy_location(ast.If(test=s.test, body=s.body[:-1], orelse=rest), s)
                     return stmts[:i] + [new]
         return stmts
     fn.body = fix(fn.body, False)
